@@ -855,6 +855,11 @@ func (fr *Frame) execLoopCut(l *Loop, in []*Edge) map[*ssa.BasicBlock][]*Edge {
 		lc = c.Loops[l.ord]
 	}
 	fname := shortFuncName(fr.fn.String())
+	if c := fr.vc.w.contracts[fname]; c != nil {
+		saveLets := vc.curLets
+		vc.curLets = c.Lets
+		defer func() { vc.curLets = saveLets }()
+	}
 	// range loops: the hidden index never drops below -1 (checked like any invariant)
 	for _, phi := range phis {
 		if phi.Comment == "rangeindex" {
@@ -877,7 +882,7 @@ func (fr *Frame) execLoopCut(l *Loop, in []*Edge) map[*ssa.BasicBlock][]*Edge {
 			if !clauseActive(inv.Tags, vc.w.prop) {
 				continue
 			}
-			t := fr.evalBool(inv.Expr, scope, pre, fr.entry)
+			t := fr.evalGoal(inv.Expr, scope, pre, fr.entry)
 			vc.obligeNamed(fr, fmt.Sprintf("%s/loop%d/inv-entry/%d", fname, l.ord, i), "inv-entry", t, inv.Tags, inv.Src)
 		}
 	}
@@ -965,7 +970,7 @@ func (fr *Frame) execLoopCut(l *Loop, in []*Edge) map[*ssa.BasicBlock][]*Edge {
 			if !clauseActive(inv.Tags, vc.w.prop) {
 				continue
 			}
-			t := fr.evalBool(inv.Expr, scope, e.st, fr.entry)
+			t := fr.evalGoal(inv.Expr, scope, e.st, fr.entry)
 			vc.obligeNamed(fr, fmt.Sprintf("%s/loop%d/inv-preserved/%d@%d", fname, l.ord, i, li), "inv-preserved", t, inv.Tags, inv.Src)
 		}
 		for i, d := range lc.Decreases {
